@@ -25,6 +25,8 @@ import copy
 import itertools
 import json
 from datetime import timedelta
+
+import numpy as np
 from pathlib import Path
 
 from ..coqgen import B, C, L, N, NONE, P, Some, Z
@@ -133,6 +135,7 @@ def _gen_comp(rng, malformed=False):
         outs.append(_out())
     for sp_ in outs:
         sp_["spare"] = rng.random() < 0.15  # a dead-end adapter next to the normal links
+        sp_["masked"] = rng.random() < 0.2   # the initial value is a masked (missing) cell
     owner_o = {o: k for k in range(n) for o in comps[k]["outs"]}
     # inputs
     for k in range(n):
@@ -146,7 +149,9 @@ def _gen_comp(rng, malformed=False):
             comps[k]["ins"].append(len(ins))
             vias = ["direct", "direct", "direct", "scale", "chain", "shared0", "shared0", "shared1"]
             if not outs[src]["static"]:
-                vias += ["dfixed", "dfixed", "dpull", "sdfixed0", "sdfixed0", "avg", "avg", "avgstep", "sum", "sum", "linear"]
+                vias += ["dfixed", "dfixed", "dpull", "sdfixed0", "sdfixed0"]
+                if not outs[src]["masked"]:
+                    vias += ["avg", "avg", "avgstep", "sum", "sum", "linear"]
             ins.append(_inp(src, static=outs[src]["static"], via=rng.choice(vias)))
     # fill in the specs
     for k in range(n):
@@ -418,6 +423,10 @@ def _corpus():
     for via_a, via_b in (("dfixed", "dfixed"), ("dpull", "dpull"), ("sdfixed0", "sdfixed0"), ("dfixed", "direct")):
         for times in ([0, 4 * DAY, 0, 9 * DAY], [9 * DAY, 4 * DAY, 9 * DAY, 0], [0, 0, 0, 0]):
             cs += _perms(_delay_family(via_a, via_b, times), limit=24 if via_a == "sdfixed0" else 6)
+    # seeded/C06_m: a masked (missing) initial value must be published as such for BOTH initial publications
+    for masked, units in ((True, None), ("q", "km")):
+        for times, start in (([4 * DAY, 0, 4 * DAY], 0), ([0, 0, 0], 0), ([DAY, DAY, 2 * DAY], 0)):
+            cs += _perms(_masked_family(masked, units, times, start))
     # seeded/C06_k: push-based time adapters on pulled links; the producer publishes twice (own start later than the
     # composition start / explicit earlier start_time): the initial pull for the composition start hits the FIRST of
     # two buffered entries and must deliver the producer's initial value
@@ -446,6 +455,16 @@ def _delay_family(via_a, via_b, times):
                     _inp(1, own=tl, pull=True, via=via_a if via_a != "sdfixed0" else "dfixed")],
             "outs": [_out(prov_info=[[], ts], prov_data=[[], 10]), _out(prov_info=[[], tm], prov_data=[[["pull", 0]], 11])],
             "comps": [_comp([], [0], ts), _comp([0], [1], tm), _comp([1], [], tsd), _comp([2], [], tl)]}
+
+
+def _masked_family(masked, units, times, start):
+    """Producer.Field (masked initial value) -> Early.In (pulled, direct), -> Late.In (pulled, behind DelayFixed)."""
+    tp, te, tl = times
+    un = units is not None
+    return {"kind": "comp", "start": start, "auto_start": False,
+            "ins": [dict(_inp(0, own=te, pull=True), units_none=un), dict(_inp(0, own=tl, pull=True, via="dfixed"), units_none=un)],
+            "outs": [dict(_out(prov_info=[[], tp], prov_data=[[], 10]), masked=masked, units=units)],
+            "comps": [_comp([], [0], tp), _comp([0], [], te), _comp([1], [], tl)]}
 
 
 def _push_family(via, times, start):
@@ -593,7 +612,7 @@ class HC(fm.TimeComponent):
             if sp["prov_info"] is not None and all(_dep_ok(conn, d) for d in sp["prov_info"][0]):
                 pi[f"Out{o}"] = _info(sp["prov_info"][1], sp["static"], **_out_kw(sp))
             if sp["prov_data"] is not None and all(_dep_ok(conn, d) for d in sp["prov_data"][0]):
-                pd[f"Out{o}"] = float(sp["prov_data"][1])
+                pd[f"Out{o}"] = _make_payload(sp)
         before = _count_done(conn)
         if len(self._log) > self._bound:
             # more calls than the proven bound of C06_terminates allows: stop the run, the monitor reports it
@@ -617,7 +636,31 @@ class HC(fm.TimeComponent):
         pass
 
 
-def _payload(d):
+MASK_LOST, MASK_UNEXPECTED = 4997, 4996
+
+
+def _make_payload(sp):
+    """The initial data of an output: a number, or - "masked" - a missing value (masked cell whose memory holds the
+    token), bare or wrapped in a quantity."""
+    p = float(sp["prov_data"][1])
+    if not sp.get("masked"):
+        return p
+    arr = np.ma.masked_array(p, mask=True)
+    return fm.UNITS.Quantity(arr, sp.get("units") or "") if sp["masked"] == "q" else arr
+
+
+def _payload(d, masked=False):
+    """token of a publication / pulled value; a masked output's value must arrive masked"""
+    try:
+        m = np.ma.getmaskarray(fin.magnitude(d)).reshape(-1)
+        if masked:
+            if not m.all():
+                return MASK_LOST
+            return int(round(float(np.ma.getdata(fin.magnitude(d)).reshape(-1)[0])))
+        if m.any():
+            return MASK_UNEXPECTED
+    except Exception:  # noqa
+        return 4998
     try:
         v = fin.scalar_of(d)
         if v != v or abs(v) > 4000:
@@ -742,11 +785,13 @@ def _run_comp(case):
         conn = in_owner[i].connector
         nm = f"In{i}"
         d = conn.in_data.get(nm)
-        ins_obs.append([_t_or_nominal(conn.in_infos[nm], _nominal_in(sp), sp["static"]), None if d is None else _payload(d)])
+        src_masked = bool(case["outs"][sp["src"]].get("masked"))
+        ins_obs.append([_t_or_nominal(conn.in_infos[nm], _nominal_in(sp), sp["static"]),
+                        None if d is None else _payload(d, src_masked)])
     for o, sp in enumerate(case["outs"]):
         conn = out_owner[o].connector
         nm = f"Out{o}"
-        data = [[us_of(t), _payload(out_obj[o]._unpack(d))] for t, d in out_obj[o].data]
+        data = [[us_of(t), _payload(out_obj[o]._unpack(d), bool(sp.get("masked")))] for t, d in out_obj[o].data]
         outs_obs.append([_t_or_nominal(conn.out_infos[nm], _nominal_out(sp), sp["static"]), bool(conn.infos_pushed[nm]),
                          bool(conn.data_pushed[nm]), data])
     def _meta(info):
@@ -1140,7 +1185,10 @@ def _monitor_comp(case, obs):
         if len(exp) == 2 and _evicted(case, o, obs["ins"]):
             exp = exp[1:]
         if data != exp:
-            return f"output {o}: initial publications {data}, expected {exp} (start {case['start']}, producer info time {h})"
+            lost = [t for t, pl in data if pl == MASK_LOST]
+            note = f"; the publication(s) for {lost} lost the missing-value mask of the initial value" if lost else ""
+            return (f"output {o}: initial publications {data}, expected {exp} (start {case['start']}, "
+                    f"producer info time {h}){note}")
     return _monitor_meta(case, obs)
 
 
@@ -1229,6 +1277,9 @@ def distribution(cases, obss):
             a["via"].startswith("shared") and b["via"] == a["via"] and a["src"] == b["src"]
             for x, a in enumerate(c["ins"]) for y, b in enumerate(c["ins"]) if x < y)
         feats["spare_adapter"] += any(o.get("spare") for o in c["outs"])
+        feats["masked_payload_published_twice"] += any(
+            o.get("masked") and not o["static"] and any(o_ in k["outs"] and k["time"] != c["start"] for k in c["comps"])
+            for o_, o in enumerate(c["outs"]))
         feats["push_time_adapter_on_pulled_link"] += any(i["via"] in PUSH_VIAS and i["pull"] for i in c["ins"])
         feats["explicit_earlier_start"] += all(k["time"] > c["start"] for k in c["comps"])
         feats["delay_adapter_on_pulled_link"] += any(_is_delay(i["via"]) and i["pull"] for i in c["ins"])
